@@ -64,7 +64,10 @@ def pattern_arms(F, R, eng):
     pid = H.local_id(H.strip(m["scrut"]))
     # by role, not by name: the vector the pattern arms push their jump positions on, and the loop variable whose
     # `.patterns` the pattern loop iterates
-    pushed = sorted({H.local_id(H.strip(c["recv"])) for c in H.walk(m) if c.get("k") == "mcall" and c["m"] == "push" and H.local_id(H.strip(c["recv"])) is not None})
+    # (the pushes may sit in the arms of the match on the pattern or right behind it: anywhere in the loop over the patterns)
+    ploops = [x for x in H.walk(b) if x.get("k") == "match" and x.get("src", "").startswith("ForLoop") and any(y is m for y in H.walk(x))]
+    pscope = min(ploops, key=H._size) if ploops else m
+    pushed = sorted({H.local_id(H.strip(c["recv"])) for c in H.walk(pscope) if c.get("k") == "mcall" and c["m"] == "push" and H.local_id(H.strip(c["recv"])) is not None})
     # ... and of those, the one whose positions are patched right before the arm's body is compiled (jumps *to the body*):
     # the `for p in V { patch_jump(p) }` statement that directly precedes the statement compiling `<arm>.body`
     vec_ids = []
@@ -76,7 +79,10 @@ def pattern_arms(F, R, eng):
             e_ = s_.get("e") or s_.get("init")
             if e_ is None or i == 0:
                 continue
-            is_body = any(c.get("k") in ("call", "mcall") and H.last(c.get("callee") or "") == "compile_block_statement" for c in H.walk(e_)) and \
+            is_body = any(c.get("k") in ("call", "mcall") and (H.last(c.get("callee") or "") == "compile_block_statement" or
+                                                                (c.get("callee") in F.fns and any(y.get("k") in ("call", "mcall") and H.last(y.get("callee") or "") == "compile_block_statement"
+                                                                                                  for y in H.walk(H.body_of(F.fns[c["callee"]]) or {}))))
+                          for c in H.walk(e_)) and \
                 not any(x.get("k") in ("loop",) for x in H.walk(e_))
             if not is_body:
                 continue
